@@ -70,6 +70,8 @@ class World(object):
         self.reg = []; self.oid = {}; self.expected = []; self.cls = []; self.refs = []
         self.script = {}; self.calls = {}; self.log = []; self.sql = []; self.in_hook = 0
         self.links = set()        # the engine's own book of many-to-many pairs (g oid, t oid)
+        self.cur_hook = None      # object whose hook body is running
+        self.cross_ref = False    # a hook stored a reference into ANOTHER object than its own
 
     # -- statements ----------------------------------------------------------------------------------------------------
     def on_sql(self, text):
@@ -132,6 +134,7 @@ class World(object):
 
     def setref(self, i, g):
         if i >= len(self.reg) or g >= len(self.reg) or self.cls[i] != 'I' or self.cls[g] != 'G': raise HookScriptError('no such I/G %r' % ((i, g),))
+        if self.cur_hook is not None and self.cur_hook != i: self.cross_ref = True
         self.reg[i].g = self.reg[g]
         self.refs[i] = [g]
 
@@ -143,6 +146,9 @@ class World(object):
         elif op[0] == 'unlink': self.link(op[1], op[2], False)
         elif op[0] == 'createT_link': self.create('T', None); self.link(op[1], len(self.reg) - 1, True)
         elif op[0] == 'setref': self.setref(op[1], op[2])
+        elif op[0] == 'createG_setref':       # a new G stored in the reference attribute of the I object op[1]
+            if op[1] >= len(self.reg) or self.cls[op[1]] != 'I': raise HookScriptError('no such I %r' % (op[1],))
+            self.create('G', None); self.setref(op[1], len(self.reg) - 1)
         elif op[0] == 'query': self.db.select('select count(*) from "G"')      # a read through the database: auto-flush unless flush is disabled (before_* hooks)
 
     # -- hooks -----------------------------------------------------------------------------------------------------------
@@ -154,7 +160,10 @@ class World(object):
         e = self.script.get(key)
         if e is None: return
         ops = e['calls'][n] if n < len(e['calls']) else e['rest']
-        for op in ops: self.run_op(op)
+        prev = self.cur_hook; self.cur_hook = oid
+        try:
+            for op in ops: self.run_op(op)
+        finally: self.cur_hook = prev
 
     def close(self):
         try: self.db.disconnect()
@@ -219,8 +228,10 @@ def gen_case(rng, shape=None):
                 if live('G'): ops.append(['createT_link', rng.choice(live('G'))])
             elif r < 0.93:
                 if live('T'): ops.append(['create', 'G', None, rng.choice(live('T'))])
+            elif r < 0.965:
+                if live('I') and live('G'): ops.append(['setref', rng.choice(live('I')), rng.choice(live('G'))])
             else:
-                if action != 'entity_flush' and live('I') and live('G'): ops.append(['setref', rng.choice(live('I')), rng.choice(live('G'))])
+                if live('I'): ops.append(['createG_setref', rng.choice(live('I'))])
         return ops
     script = []
     p_hook = rng.choice([0.15, 0.3, 0.5])
@@ -233,7 +244,7 @@ def gen_case(rng, shape=None):
                     if phase == 'after' and rng.random() < 0.06: rest = [['modify', oid]]          # never settles: the 50-round limit
                     if kind == 'delete':
                         # a deleted object cannot be read / assigned / own a link any more
-                        calls = [[op for op in c if not (op[0] in ('modify', 'read', 'link', 'unlink', 'createT_link', 'setref') and oid in op[1:])
+                        calls = [[op for op in c if not (op[0] in ('modify', 'read', 'link', 'unlink', 'createT_link', 'setref', 'createG_setref') and oid in op[1:])
                                   and not (op[0] == 'create' and oid in op[2:])] for c in calls]; rest = []
                     script.append({'phase': phase, 'kind': kind, 'obj': oid, 'calls': calls, 'rest': rest})
     return {'init': init, 'links0': links0, 'pre': pre, 'script': script, 'action': action, 'pick': rng.randrange(1000)}
@@ -245,10 +256,12 @@ def model_ops(ops):
         if op[0] in ('read', 'modify'): out.append([op[0], op[1]])
         elif op[0] == 'create':
             out.append(['create'])
+            if op[1] == 'I' and op[2] is not None: out.append(['refNewTo', op[2]])
             if len(op) > 3 and op[3] is not None: out.append(['linkNewOwner', op[3]])
+        elif op[0] == 'createG_setref': out.append(['create']); out.append(['refToNew', op[1]])
         elif op[0] in ('link', 'unlink'): out.append([op[0], op[1], op[2]])
         elif op[0] == 'createT_link': out.append(['create']); out.append(['linkNewItem', op[1]])
-        elif op[0] == 'setref': out.append(['modify', op[1]])
+        elif op[0] == 'setref': out.append(['setRef', op[1], op[2]])
         elif op[0] == 'query': out.append(['query'])
     return out
 
@@ -283,6 +296,12 @@ SHAPES = [
                 {'phase': 'after', 'kind': 'update', 'obj': 2, 'calls': [[['modify', 1], ['query']]], 'rest': []}], 'action': 'commit', 'pick': 0},
     {'name': 'before_update queries the database (flush disabled)', 'init': [['G', None], ['G', None]], 'links0': [], 'pre': [['modify', 0]],
      'script': [{'phase': 'before', 'kind': 'update', 'obj': 0, 'calls': [[['modify', 1], ['query']]], 'rest': []}], 'action': 'flush', 'pick': 0},
+    {'name': 'obj.flush() of a modified object whose before_update creates the object it then refers to', 'init': [['G', None], ['I', 0]], 'links0': [],
+     'pre': [['modify', 1]], 'script': [{'phase': 'before', 'kind': 'update', 'obj': 1, 'calls': [[['createG_setref', 1]]], 'rest': []}], 'action': 'entity_flush', 'pick': 0},
+    {'name': 'obj.flush() of a new object whose before_insert replaces its reference by a new object', 'init': [['G', None]], 'links0': [],
+     'pre': [['create', 'I', 0]], 'script': [{'phase': 'before', 'kind': 'insert', 'obj': 1, 'calls': [[['createG_setref', 1], ['modify', 2]]], 'rest': []}], 'action': 'entity_flush', 'pick': 0},
+    {'name': 'flush(): before_update creates the object it then refers to', 'init': [['G', None], ['I', 0]], 'links0': [],
+     'pre': [['modify', 1]], 'script': [{'phase': 'before', 'kind': 'update', 'obj': 1, 'calls': [[['createG_setref', 1]]], 'rest': []}], 'action': 'commit', 'pick': 0},
     {'name': 'hook touches a deleted object', 'init': [['G', None], ['G', None]], 'pre': [['delete', 1], ['modify', 0]],
      'script': [{'phase': 'before', 'kind': 'update', 'obj': 0, 'calls': [[['modify', 1]]], 'rest': []}], 'action': 'flush', 'pick': 0},
 ]
@@ -351,7 +370,8 @@ def run_real(W, case):
             init_state = {'objs': [[o._status_, dirty[i]] for i, o in enumerate(W.reg)],
                           'queue': [None if o is None else W.oid[o] for o in cache.objects_to_save],
                           'modified': bool(cache.modified),
-                          'links': {'view': view, 'pendAdd': padd, 'pendRem': prem, 'db': sorted(dbl)}}
+                          'links': {'view': view, 'pendAdd': padd, 'pendRem': prem, 'db': sorted(dbl)},
+                          'refs': [list(r) for r in W.refs]}
             res['init_state'] = init_state
             target = None
             if case['action'] == 'entity_flush':
@@ -372,6 +392,7 @@ def run_real(W, case):
             except Exception as e:
                 res['error'] = 'unexpected:' + type(e).__name__
             res['log'] = [list(x) for x in W.log]
+            res['cross_ref'] = bool(W.cross_ref)
             evs = W.tr.db_events(W.tr.since(m2))
             res['traced_writes'] = len([e for e in evs if e['call'] == 'execute' and e['kind'] in ('insert', 'update', 'delete')])
             res['traced_batches'] = len([e for e in evs if e['call'] == 'executemany'])
@@ -455,6 +476,10 @@ def brief(case):
             'script': [e for e in case['script'] if any(e['calls']) or e['rest']]}
 
 def shrink_key(case, res, tag):
+    if case['action'] == 'entity_flush' and res.get('cross_ref'):
+        # obj.flush(): a hook body stored a reference into ANOTHER object (already scanned, or the flushed object itself from the hook of
+        # one of the new objects it refers to): Entity.flush's single scan pass misses it.  One canonical key for this narrow class.
+        return 'entity_flush:hook-rereferences-another-object'
     return '%s:%s' % (case['action'] if case['action'] == 'entity_flush' else 'flush', tag)
 
 
@@ -479,7 +504,8 @@ def check_case(ctx, W, case, pending):
     hook_ops = [op[0] for e in case['script'] for c in e['calls'] for op in c]
     if any(o in ('link', 'unlink', 'createT_link') or False for o in hook_ops) or any(op[0] == 'create' and len(op) > 3 for e in case['script'] for c in e['calls'] for op in c):
         ctx.count('script-with-m2m-ops-in-hooks')
-    if 'setref' in hook_ops: ctx.count('script-with-reference-change-in-hooks')
+    if 'setref' in hook_ops or 'createG_setref' in hook_ops: ctx.count('script-with-reference-change-in-hooks')
+    if 'createG_setref' in hook_ops and case['action'] == 'entity_flush': ctx.count('entity_flush:hook-creates-and-references-an-object')
     if any(len(W_refs) for W_refs in res.get('refs', [])): ctx.count('with-references')
     n_init = len(res['init_state']['objs'])
     if len(res.get('cls', [])) > n_init: ctx.count('objects-created-inside-hooks', len(res['cls']) - n_init)
@@ -573,8 +599,7 @@ def check_case(ctx, W, case, pending):
             orders.append([i, obs])
         else: i += 1
     if case['action'] == 'entity_flush':
-        req = {'op': 'entityFlush', 'state': res['init_state'], 'script': script, 'bfuel': 100000, 'obj': res['target'],
-               'refs': res['refs'], 'saved': [e[2] for e in stmts]}
+        req = {'op': 'entityFlush', 'state': res['init_state'], 'script': script, 'bfuel': 100000, 'obj': res['target']}
     else:
         req = {'op': 'flushN', 'state': res['init_state'], 'script': script, 'bfuel': 100000, 'orders': orders, 'depth': 40}
     pending.append((req, res, inp))
